@@ -22,6 +22,8 @@ type World struct {
 	NBP     int
 	BPIDs   []string
 
+	NodeEnv map[string][]string // extra environment per node name (e.g. GOMAXPROCS=1)
+
 	mu    sync.Mutex
 	nodes map[string]*Client
 	seq   int
@@ -98,7 +100,7 @@ func (w *World) Node(name string, mod func(*NodeConfig)) (*Client, *BlockInfo, e
 	w.seq++
 	pname := fmt.Sprintf("%s-%s-%d", w.Name, name, w.seq)
 	w.mu.Unlock()
-	c, err := Spawn(pname, filepath.Join(w.Scratch, "proc"))
+	c, err := Spawn(pname, filepath.Join(w.Scratch, "proc"), w.NodeEnv[name]...)
 	if err != nil {
 		return nil, nil, err
 	}
